@@ -1061,6 +1061,48 @@ def gen_tiny(max_stmts=2):
     return out
 
 
+# ---------------------------------------------------------------------------------------- deep / long (C13)
+def gen_deep():
+    """Deeply nested and very long constructs (C13's quantifier): nesting 50..200, chains of up to 500
+    operators, brackets nested 100 deep, calls nested 60 deep."""
+    out = []
+    i32 = ["prim", "i32"]
+    lit = lambda: ["expr", ["prim", ["pv", "i32", 1]]]
+    for depth in (50, 120, 200):
+        g = Gen(0)
+
+        def nest(d, inloop):
+            if d == 0:
+                return [["let", g.ident("x"), 0, ["noty"], lit()]]
+            if d % 2 == 0:
+                return [["loop"] + nest(d - 1, True) + [["break"]]]
+            return [["if", ["ifs", ["single", lit()], (["loopbody"] if inloop else ["ifbody"]) + nest(d - 1, inloop),
+                            ["noelse"], ["noelif"]]]]
+        out.append((["program", ["fn", g.ident("f"), ["params"], i32, ["body"] + nest(depth, False) + [["ret", lit()]]]],
+                    {"stream": "deep", "nesting": depth}))
+    for n in (100, 300, 500):
+        g = Gen(n)
+        chain = ["expr", ["ext", i32, 0]]
+        for k in range(n):
+            chain.append([g.rng.choice(OPS), ["ext", i32, k + 1]])
+        out.append((["program", ["fn", g.ident("f"), ["params"], i32,
+                                 ["body", ["let", g.ident("c"), 0, ["noty"], chain], ["ret", lit()]]]],
+                    {"stream": "deep", "chain": n}))
+    g = Gen(1)
+    e = lit()
+    for _ in range(100):
+        e = ["expr", ["sub", e], ["Plus", ["prim", ["pv", "i32", 1]]]]
+    out.append((["program", ["fn", g.ident("f"), ["params"], i32, ["body", ["ret", e]]]], {"stream": "deep", "brackets": 100}))
+    g = Gen(2)
+    e = lit()
+    for _ in range(60):
+        e = ["expr", ["call", g.ident("id"), e]]
+    out.append((["program",
+                 ["fn", g.ident("id"), ["params", [g.ident("a"), i32]], i32, ["body", ["ret", ["expr", ["name", g.ident("a")]]]]],
+                 ["fn", g.ident("f"), ["params"], i32, ["body", ["ret", e]]]], {"stream": "deep", "calls": 60}))
+    return out
+
+
 def generate(seed, n_wf, n_fault, n_free, n_known=0):
     """Deterministic batch: list of (program, meta)."""
     out = []
